@@ -418,6 +418,53 @@ class _InlineExprs(ast.NodeTransformer):
         return node
 
 
+def _forward_process_temps(fn):
+    """N5: `g = obj.method(args)` used exactly once, as the argument of `<env>.process(g)`,
+    is substituted there (a spawn written through a temporary)."""
+    loads = {}
+    stores = {}
+    for n in _walk_no_nested(fn):
+        if isinstance(n, ast.Name):
+            (loads if isinstance(n.ctx, ast.Load) else stores).setdefault(n.id, []).append(n)
+    cands = {}
+    for n in _walk_no_nested(fn):
+        if isinstance(n, ast.Assign) and len(n.targets) == 1 and isinstance(n.targets[0], ast.Name) and \
+                isinstance(n.value, ast.Call):
+            nm = n.targets[0].id
+            if len(stores.get(nm, [])) == 1 and len(loads.get(nm, [])) == 1:
+                cands[nm] = n
+    if not cands:
+        return
+    used = {}
+    for n in _walk_no_nested(fn):
+        if isinstance(n, ast.Call) and isinstance(n.func, ast.Attribute) and n.func.attr == 'process' and \
+                len(n.args) == 1 and isinstance(n.args[0], ast.Name) and n.args[0].id in cands:
+            used[n.args[0].id] = n
+    if not used:
+        return
+
+    class T(ast.NodeTransformer):
+        def visit_Assign(self, node):
+            for nm, a in cands.items():
+                if node is a and nm in used:
+                    return None
+            return node
+
+        def visit_Call(self, node):
+            self.generic_visit(node)
+            for nm, c in used.items():
+                if node is c:
+                    node.args = [cands[nm].value]
+            return node
+
+        def visit_Lambda(self, node):
+            return node
+    T().visit(fn)
+    for n in ast.walk(fn):
+        if hasattr(n, 'body') and isinstance(n.body, list) and not n.body:
+            n.body.append(ast.Pass())
+
+
 def normalize_module(tree, no_inline, all_classes=None):
     """Normalise one module in place.  Returns {helper qual: inlined call count}."""
     tree = _IfExpDesugar().visit(tree)
@@ -453,5 +500,8 @@ def normalize_module(tree, no_inline, all_classes=None):
                     _Unroll().visit(fn)
                 else:
                     break
+            _forward_process_temps(fn)
+    for fn in [n for n in tree.body if isinstance(n, ast.FunctionDef)]:
+        _forward_process_temps(fn)
     ast.fix_missing_locations(tree)
     return inl.inlined_calls
